@@ -89,6 +89,9 @@ class Poison:
 
 SCRAMBLERS = {
     "ff": lambda n: b"\xff" * n,
+    # small numbers where a reader might look for a count (1, 2, 1, 2, ... as 32-bit words)
+    "small-words": lambda n: (b"\x01\0\0\0\x02\0\0\0" * (n // 8 + 1))[:n],
+    "word-2": lambda n: (b"\x02\0\0\0" * (n // 4 + 1))[:n],
     "text": lambda n: (b"garbage~" * (n // 8 + 1))[:n],
     "undefined-cp1252": lambda n: (b"\x81\x8d\x8f\x90\x9d" * (n // 5 + 1))[:n],
     "random": lambda n: hashlib.sha256(str(n).encode()).digest() * (n // 32) + hashlib.sha256(b"x").digest()[: n % 32],
@@ -112,27 +115,48 @@ def morph(kind, fmt, b_from, b_to, vals, style):
     must not survive such edits."""
     obj = ab.gamma(kind, fmt, b_from, vals, style)
     obj.nBytes
-    ab.encode(obj)
+    raw = ab.encode(obj)
     repr(obj)
+    decoded = style % 4 >= 2
+    if decoded:
+        # the block that is edited came out of the decoder (its arrays may be views of whatever
+        # the decoder read); the library has looked at it as well
+        obj, _ = ab.decode(kind, fmt, raw)
+        obj.nBytes
+        ab.encode(obj)
+    rebind = style % 4 == 3    # some attributes are given NEW arrays, the others are edited in place
     name, per = RLE_KINDS[kind]
     items = ab.items_of(kind, obj)
+
+    def put(it, attr, value):
+        cur = getattr(it, attr)
+        if rebind or not cur.flags.writeable:
+            setattr(it, attr, np.array(value, dtype=cur.dtype))
+        else:
+            cur[...] = value
     for it, tgt in zip(items, b_to[name]):
         a = ab._frames(vals, tgt["frames"], per)
         if kind == "Data3D":
-            if style % 2:
+            if style % 2 and not decoded:
                 it.X, it.Y, it.Z = a[:, 0], a[:, 1], a[:, 2]
             else:
-                it.data[:, :] = a
+                put(it, "data", a)
         elif kind == "EMG":
-            it.data[:] = a[:, 0]
+            put(it, "data", a[:, 0])
         elif kind == "ForceTorque3D":
-            it.application_point[:, :] = a[:, 0:3]
-            it.force[:, :] = a[:, 3:6]
-            it.torque[:, :] = a[:, 6:9]
+            if it.application_point.flags.writeable:
+                it.application_point[:, :] = a[:, 0:3]
+            else:
+                it.application_point = a[:, 0:3].copy()
+            put(it, "force", a[:, 3:6])
+            put(it, "torque", a[:, 6:9])
         else:
-            it.application_point[:, :] = a[:, 0:2]
-            it.force[:, :] = a[:, 2:5]
-            it.torque[:] = a[:, 5]
+            if it.application_point.flags.writeable:
+                it.application_point[:, :] = a[:, 0:2]
+            else:
+                it.application_point = a[:, 0:2].copy()
+            put(it, "force", a[:, 2:5])
+            put(it, "torque", a[:, 5])
     return obj
 
 
@@ -174,7 +198,7 @@ def exotic_sizes(vec, r, style=0):
     return out
 
 
-def evaluate(vec, r, props, style=0, morph_from=None, huge=False, chan_zero=None, exotic=False):
+def evaluate(vec, r, props, style=0, morph_from=None, huge=False, chan_zero=None, exotic=False, start_zero=None):
     if exotic:
         return exotic_sizes(vec, r, style) if "C02" in props else []
     """-> list of (clause, detail) for the properties asked for"""
@@ -183,6 +207,9 @@ def evaluate(vec, r, props, style=0, morph_from=None, huge=False, chan_zero=None
     if kind == "Header":
         return out  # the header is written by Tdf.new and read by Tdf.__enter__: checked at file level (codec_file)
     vals = Values(r, huge=huge) if chan_zero is None else ChanZeroValues(r, chan_zero)
+    if start_zero is not None:
+        from .values import StartZeroValues
+        vals = StartZeroValues(r, vec["b"]["startTime"], start_zero == "-")
     exp = ab.pack(toks, vals)
     try:
         obj = morph(kind, fmt, morph_from, b, vals, style) if morph_from is not None else ab.gamma(kind, fmt, b, vals, style)
@@ -333,6 +360,48 @@ def _scramble_checks(kind, fmt, b, toks, vals, enc, out, entry=False):
             return
 
 
+_SALT = [0]
+
+
+def decode_first(vec, r):
+    """C12 on bytes the library has never produced: layout-conformant bytes with fresh texts and
+    garbage in every undefined byte are DECODED first (a reader that remembers what it read must
+    not let the garbage resurface), then re-encoded"""
+    from .values import FreshTextValues
+    kind, fmt, b, toks = vec["kind"], vec["fmt"], vec["b"], vec["toks"]
+    out = []
+    if kind in ("Header", "Entry"):
+        return out
+    for name, fn in SCRAMBLERS.items():
+        _SALT[0] += 1
+        vals = FreshTextValues(r, f"{os.getpid() % 1000}.{_SALT[0]}")
+        exp = ab.pack(toks, vals)
+        spans = ab.dontcare_spans(toks, vals)
+        if not spans:
+            return out
+        raw = bytearray(exp)
+        for (a, z) in spans:
+            raw[a:z] = fn(z - a)
+        try:
+            dec, pos = ab.decode(kind, fmt, bytes(raw))
+            back = ab.alpha(kind, fmt, dec, vals)
+            if back != b:
+                out.append(("C12:content_depends_on_dontcare", f"never seen bytes, garbage {name}: {_where(b, back)}"))
+                return out
+            re = ab.encode(dec)
+            if re != exp:
+                out.append(("C12:reencode_not_canonical", f"never seen bytes, garbage {name}: first difference at byte {first_diff(re, exp)}"))
+                return out
+            fresh = ab.encode(ab.gamma(kind, fmt, b, vals, 0))
+            if fresh != exp:
+                out.append(("C12:reencode_not_canonical", f"a block built from the same values after such a decode encodes differently: first difference at byte {first_diff(fresh, exp)}"))
+                return out
+        except Exception as x:  # noqa: BLE001
+            out.append(("C12:content_depends_on_dontcare", f"never seen bytes, garbage {name}: {type(x).__name__}: {x}"))
+            return out
+    return out
+
+
 def _where(a, b, path=""):
     """first position at which two abstract values differ"""
     if type(a) is not type(b):
@@ -450,6 +519,24 @@ def file_equality(run, vecs, seed, limit):
             if (e1 or e2) and len(run.violations) < 5:
                 run.violation(f"C14:different_files_equal files differing in one site of their {kind} block compare equal: {_where(b, m)}",
                               dict(kind="codec-file-eq", vector=vec))
+            # the same two OBJECTS compared before and after one file is rewritten in place (the block
+            # stored last is replaced by one that differs in a single site: same table, other content)
+            build(pa, other + [a1])
+            build(pb, other + [a2])
+            X, Y = Tdf(pa), Tdf(pb)
+            with X as x, Y as y:
+                before = bool(x == y) and bool(y == x)
+            a3 = ab.gamma(kind, fmt, m, Values(seed, specials=False), 1)
+            with Y.allow_write() as f:
+                f.replace_block(a3)
+            with X as x, Y as y:
+                after = bool(x == y) or bool(y == x)
+            n += 2
+            if (not before or after) and len(run.violations) < 5:
+                run.violation(f"C14:{'equal_files_unequal' if not before else 'different_files_equal'} the same two Tdf objects "
+                              f"compared before and after the {kind} block of one file was replaced ({_where(b, m)})",
+                              dict(kind="codec-file-eq", vector=vec))
+            build(pa, [a1] + other)
             build(pb, [a2] + other, version=2)
             e1, e2 = equal(pa, pb)
             build(pb, [a2] + other, slots=15)
@@ -559,9 +646,15 @@ def check(prop, tier, seed, replay=None):
                 bad = [(c, d) for c, d, _ in bigdata.capture_campaign({prop})[0]]
             else:
                 bad = [(c, d) for c, d, _ in bigdata.header_campaign({prop}, seed)[0]]
+        elif rp.get("decode_first"):
+            bad = decode_first(rp["vector"], rp["r"])
+        elif rp.get("start_zero"):
+            bad = []
+            for sign in ("+", "-", "+"):      # the recorded case is one of a sequence: replay the sequence
+                bad += evaluate(rp["vector"], rp["r"], {prop}, rp.get("style", 0), start_zero=sign)
         else:
             bad = evaluate(rp["vector"], rp["r"], {prop}, rp.get("style", 0), exotic=rp.get("exotic", False), morph_from=rp.get("morph_from"),
-                           huge=rp.get("huge", False), chan_zero=rp.get("chan_zero"))
+                           huge=rp.get("huge", False), chan_zero=rp.get("chan_zero"), start_zero=rp.get("start_zero"))
         run.cov["evaluations"] = 1
         run.cov["distinct_nontrivial"] = 2
         run.sample(dict(kind=rp.get("vector", {}).get("kind", rp.get("kind")), b=rp.get("vector", {}).get("b")))
@@ -571,7 +664,9 @@ def check(prop, tier, seed, replay=None):
                 break
         return run.finish()
     if tier == "quick":
-        maxf, maxitems, rs = (3, 2, [seed, seed + 1]) if not mutants else (2, 2, [seed])
+        # (three concretisations for C14: between them every label id takes the text classes
+        # "cp1252 0x80-0x9F characters", "longest text that fits" and "padded with blanks")
+        maxf, maxitems, rs = (3, 2, [seed, seed + 1]) if not mutants else (2, 2, [seed, seed + 4, seed + 5])
     else:
         maxf, maxitems, rs = (5, 2, list(range(seed, seed + 4))) if not mutants else (4, 2, [seed, seed + 1])
     res, vecs = vectors(ALL_KINDS, maxf, maxitems, mutants, sorted(set(sum(INVS.values(), [])) if not mutants else INVS[prop]))
@@ -622,6 +717,21 @@ def check(prop, tier, seed, replay=None):
             if mine:
                 run.violation(f"{mine[0][0]} on {vec['kind']} format {vec['fmt']} with samples near the top of the float32 range: {mine[0][1]}",
                               dict(kind="codec", vector=vec, r=rs[0], style=vi % 12, huge=True, clauses=mine))
+        if not mutants and prop in ("C01", "C06") and isinstance(vec["b"], dict) and "startTime" in vec["b"] and vi % 4 == seed % 4:
+            # the start time as +0.0 and as -0.0, alternately (two values that compare equal)
+            for sign in ("+", "-", "+"):
+                n_eval += 1
+                bad = evaluate(vec, rs[0], {prop}, style=vi % 12, start_zero=sign)
+                mine = [c for c in bad if c[0].startswith(prop + ":")]
+                if mine:
+                    run.violation(f"{mine[0][0]} on {vec['kind']} format {vec['fmt']} with start time {sign}0.0: {mine[0][1]}",
+                                  dict(kind="codec", vector=vec, r=rs[0], style=vi % 12, start_zero=sign, clauses=mine))
+        if prop == "C12" and vi % 2 == seed % 2:
+            n_eval += 1
+            bad = decode_first(vec, rs[0])
+            if bad:
+                run.violation(f"{bad[0][0]} on {vec['kind']} format {vec['fmt']}: {bad[0][1]}",
+                              dict(kind="codec", vector=vec, r=rs[0], decode_first=True, clauses=bad))
         if prop == "C02" and vec["kind"] in RLE_KINDS and not mutants:
             # samples that are not ordinary numbers (+-inf, one component NaN): sizes only
             for r in rs[:2]:
